@@ -40,7 +40,10 @@ import (
 	"time"
 
 	"github.com/risor-io/risor"
+	"github.com/risor-io/risor/compiler"
 	"github.com/risor-io/risor/object"
+	"github.com/risor-io/risor/parser"
+	"github.com/risor-io/risor/vm"
 
 	"verif/internal/mon"
 	"verif/internal/props/racelog"
@@ -71,10 +74,13 @@ type caseData struct {
 	Mode  string   `json:"mode"`  // cancel | deadline
 	K     int64    `json:"k"`     // cancel mode, tick shapes: the k-th tick cancels
 	// cancel mode, park shapes: delay between parked() and cancel(); deadline mode: the timeout
-	DelayUS int    `json:"delay_us"`
-	Procs   int    `json:"procs,omitempty"` // GOMAXPROCS of the worker (0: default)
-	Src     string `json:"src"`
-	Repeat  int    `json:"repeat,omitempty"` // confirmation / replay: run this many times
+	DelayUS int `json:"delay_us"`
+	Procs   int `json:"procs,omitempty"` // GOMAXPROCS of the worker (0: default)
+	// Reuse: "" = one risor.Eval on a new VM; else the name of a reuseForm: the workload is a later
+	// invocation on a VM that was already run with the same context
+	Reuse  string `json:"reuse,omitempty"`
+	Src    string `json:"src"`
+	Repeat int    `json:"repeat,omitempty"` // confirmation / replay: run this many times
 }
 
 func (c *caseData) nesting() string {
@@ -89,10 +95,18 @@ func (c *caseData) nesting() string {
 }
 
 func (c *caseData) shapeTag() string {
+	t := c.Shape
 	if c.Tail == "end" {
-		return c.Shape + ";end"
+		t += ";end"
 	}
-	return c.Shape
+	return t + c.reuseTag()
+}
+
+func (c *caseData) reuseTag() string {
+	if c.Reuse != "" {
+		return "@" + c.Reuse
+	}
+	return ""
 }
 
 func (c *caseData) instant() string {
@@ -132,6 +146,7 @@ type obs struct {
 	WallMs      int64   `json:"wall_ms"`
 	ReturnMs    int64   `json:"return_ms"` // cancel -> return
 	HarnessNote string  `json:"note,omitempty"`
+	Early       bool    `json:"early,omitempty"` // reuse forms: the deadline passed during an earlier invocation
 }
 
 type multi struct {
@@ -167,9 +182,154 @@ func worker(kind string, data json.RawMessage) any {
 var hangsSeen atomic.Int32
 
 type evalResult struct {
-	v   object.Object
-	err error
-	pan string
+	v    object.Object
+	err  error
+	pan  string
+	note string // harness problem in an earlier invocation of a reuse form
+}
+
+func compileWith(ctx context.Context, cfg *risor.Config, src string) (*compiler.Code, error) {
+	ast, err := parser.Parse(ctx, src)
+	if err != nil {
+		return nil, err
+	}
+	return compiler.Compile(ast, cfg.CompilerOpts()...)
+}
+
+type ctxKey struct{}
+
+const endedEarly = "the context ended before the workload started"
+
+// early: an earlier invocation of a reuse form failed; when the (deadline) context has ended by then,
+// the case simply never reached its workload
+func early(ctx context.Context, note string) string {
+	if ctx.Err() != nil {
+		return endedEarly
+	}
+	return note
+}
+
+// evaluate runs the workload: one risor.Eval on a new VM, or (reuse forms) as the last of several
+// invocations on one VM that all get the same context.
+func evaluate(ctx context.Context, c *caseData, opts []risor.Option) (object.Object, error, string) {
+	if c.Reuse == "" {
+		v, err := risor.Eval(ctx, c.Src, opts...)
+		return v, err, ""
+	}
+	bg := context.Background()
+	cfg := risor.NewConfig(opts...)
+	withVM := func(m *vm.VirtualMachine) []risor.Option {
+		return append(append([]risor.Option{}, opts...), risor.WithVM(m))
+	}
+	tos := func(m *vm.VirtualMachine, err error) (object.Object, error, string) {
+		if err != nil {
+			return nil, err, ""
+		}
+		if v, ok := m.TOS(); ok && v != nil {
+			return v, nil, ""
+		}
+		return object.Nil, nil, ""
+	}
+	switch c.Reuse {
+	case "risor.Call":
+		code, err := compileWith(bg, cfg, c.Src)
+		if err != nil {
+			return nil, nil, "compile: " + err.Error()
+		}
+		v, err := risor.Call(ctx, code, "entry", nil, opts...)
+		return v, err, ""
+	case "runcode-call", "runcode-call-call":
+		code, err := compileWith(bg, cfg, c.Src+"func quick() { return 1 }\n")
+		if err != nil {
+			return nil, nil, "compile: " + err.Error()
+		}
+		m, err := vm.NewEmpty()
+		if err != nil {
+			return nil, nil, err.Error()
+		}
+		if err := m.RunCode(ctx, code, cfg.VMOpts()...); err != nil {
+			return nil, nil, early(ctx, "first invocation (RunCode) failed: "+err.Error())
+		}
+		get := func(name string) (*object.Function, string) {
+			obj, err := m.Get(name)
+			if err != nil {
+				return nil, "vm.Get: " + err.Error()
+			}
+			fn, ok := obj.(*object.Function)
+			if !ok {
+				return nil, "not a function: " + name
+			}
+			return fn, ""
+		}
+		if c.Reuse == "runcode-call-call" {
+			q, note := get("quick")
+			if note != "" {
+				return nil, nil, note
+			}
+			if _, err := m.Call(ctx, q, nil); err != nil {
+				return nil, nil, early(ctx, "second invocation (Call quick) failed: "+err.Error())
+			}
+		}
+		fn, note := get("entry")
+		if note != "" {
+			return nil, nil, note
+		}
+		v, err := m.Call(ctx, fn, nil)
+		return v, err, ""
+	case "eval-vm-2nd", "eval-vm-3rd", "eval-vm-2nd-after-error", "eval-vm-2nd-value-ctx":
+		m, err := vm.NewEmpty()
+		if err != nil {
+			return nil, nil, err.Error()
+		}
+		first := "1 + 1"
+		if c.Reuse == "eval-vm-2nd-after-error" {
+			first = "[0][5]"
+		}
+		_, err = risor.Eval(ctx, first, withVM(m)...)
+		if (err != nil) != (c.Reuse == "eval-vm-2nd-after-error") {
+			return nil, nil, early(ctx, fmt.Sprintf("first invocation (Eval %s) gave error %v", first, err))
+		}
+		if c.Reuse == "eval-vm-3rd" {
+			if _, err := risor.Eval(ctx, "w := [1, 2, 3]\nlen(w)", withVM(m)...); err != nil {
+				return nil, nil, early(ctx, "second invocation failed: "+err.Error())
+			}
+		}
+		lctx := ctx
+		if c.Reuse == "eval-vm-2nd-value-ctx" {
+			lctx = context.WithValue(ctx, ctxKey{}, 1)
+		}
+		v, err := risor.Eval(lctx, c.Src, withVM(m)...)
+		return v, err, ""
+	case "repl-run-2nd":
+		comp, err := compiler.New(cfg.CompilerOpts()...)
+		if err != nil {
+			return nil, nil, err.Error()
+		}
+		run := func(m *vm.VirtualMachine, src string) (*vm.VirtualMachine, error, string) {
+			ast, err := parser.Parse(bg, src)
+			if err != nil {
+				return m, nil, "parse: " + err.Error()
+			}
+			code, err := comp.Compile(ast)
+			if err != nil {
+				return m, nil, "compile: " + err.Error()
+			}
+			if m == nil {
+				m = vm.New(code, cfg.VMOpts()...)
+			}
+			return m, m.Run(ctx), ""
+		}
+		m, err, note := run(nil, "warm := 1\nwarm")
+		if note != "" || err != nil {
+			return nil, nil, early(ctx, fmt.Sprintf("first invocation (Run) failed: %v %s", err, note))
+		}
+		m, err, note = run(m, c.Src)
+		if note != "" {
+			return nil, nil, note
+		}
+		return tos(m, err)
+	}
+	return nil, nil, "unknown reuse form " + c.Reuse
 }
 
 func runCase(c *caseData) (o obs) {
@@ -273,8 +433,8 @@ func runCase(c *caseData) (o obs) {
 			}
 			done <- r
 		}()
-		r.v, r.err = risor.Eval(ctx, c.Src, risor.WithConcurrency(),
-			risor.WithGlobals(map[string]any{"tick": tick, "parked": parked, "hostblock": hostblock}))
+		r.v, r.err, r.note = evaluate(ctx, c, []risor.Option{risor.WithConcurrency(),
+			risor.WithGlobals(map[string]any{"tick": tick, "parked": parked, "hostblock": hostblock})})
 	}()
 	if c.Mode == "cancel" && sh.Kind == "park" {
 		go func() {
@@ -331,6 +491,11 @@ func runCase(c *caseData) (o obs) {
 	o.Parked = parkedFlag.Load()
 	if ca := cancelAt.Load(); ca > 0 {
 		o.ReturnMs = (tRet.UnixNano() - ca) / 1e6
+	}
+	if r.note == endedEarly {
+		o.Early = true
+	} else if r.note != "" {
+		o.HarnessNote = r.note
 	}
 	if r.pan != "" {
 		o.ErrText = "GO PANIC: " + r.pan
@@ -391,14 +556,21 @@ func (c *caseData) nontrivial(o *obs) bool {
 func judge(c *caseData, o *obs) []verdict {
 	var vs []verdict
 	sh := shapeByName(c.Shape)
-	head := fmt.Sprintf("shape %s, spawn nesting %s, instant %s, mode %s, GOMAXPROCS %d\nprogram:\n%s\n", c.shapeTag(), c.nesting(), c.instant(), c.Mode, c.Procs, indent(c.Src))
+	how := "one risor.Eval(ctx, program) on a new VM"
+	if rf := reuseByName(c.Reuse); rf != nil {
+		how = "VM reused with ONE context: " + rf.What
+	}
+	head := fmt.Sprintf("shape %s, spawn nesting %s, instant %s, mode %s, GOMAXPROCS %d\n%s\nprogram:\n%s\n", c.shapeTag(), c.nesting(), c.instant(), c.Mode, c.Procs, how, indent(c.Src))
+	if o.Early {
+		return nil
+	}
 	if o.HarnessNote != "" {
 		return []verdict{{"harness:" + o.HarnessNote, head}}
 	}
 	if !o.Returned {
 		tag := c.shapeTag()
 		if len(c.Chain) > 0 {
-			tag = "recv-op" // the main program of a nested case has started the goroutines and blocks in a receive
+			tag = "recv-op" + c.reuseTag() // the main program of a nested case has started the goroutines and blocks in a receive
 		}
 		return []verdict{{"no-return:" + tag, head + fmt.Sprintf("risor.Eval had not returned %v after the start (context error by then: %q, %d ticks before the cancellation, %d ticks in total)", watchdog, o.CtxErr, o.CancelTick, o.AtReturn)}}
 	}
@@ -492,7 +664,15 @@ func mk(sh *shape, tail string, chain []string, mid string, in instant, procs in
 		tail = ""
 	}
 	c := caseData{Shape: sh.Name, Tail: tail, Chain: chain, Mid: mid, Mode: in.Mode, K: in.K, DelayUS: in.Delay, Procs: procs}
-	c.Src = render(sh, tail, chain, mid)
+	c.Src = render(sh, tail, chain, mid, false)
+	return c
+}
+
+// mkReuse: the same, as a later invocation on a reused VM
+func mkReuse(rf *reuseForm, sh *shape, tail string, chain []string, mid string, in instant) caseData {
+	c := mk(sh, tail, chain, mid, in, 0)
+	c.Reuse = rf.Name
+	c.Src = render(sh, c.Tail, chain, mid, rf.Entry)
 	return c
 }
 
@@ -567,6 +747,48 @@ func plan(d *mon.Driver) []caseData {
 			}
 		}
 	}
+	// a VM that is used again with the same context: the workload is the 2nd / 3rd invocation
+	for fi := range reuseForms {
+		rf := &reuseForms[fi]
+		if d.Thorough() {
+			for i := range shapes {
+				sh := &shapes[i]
+				tails := []string{""}
+				if sh.CanExit {
+					tails = []string{"loop", "end"}
+				}
+				ins := instantsFor(sh)
+				for _, t := range tails {
+					for _, in := range ins {
+						cs = append(cs, mkReuse(rf, sh, t, nil, "exit", in))
+					}
+				}
+				for _, f := range spawnForms {
+					p := r.Perm(len(ins))
+					for j := 0; j < 2 && j < len(p); j++ {
+						cs = append(cs, mkReuse(rf, sh, "loop", []string{f}, "exit", ins[p[j]]))
+					}
+				}
+			}
+			continue
+		}
+		// quick: every shape once (seed-chosen instant and tail), plus nested ones
+		for i := range shapes {
+			sh := &shapes[i]
+			ins := instantsFor(sh)
+			tail := "loop"
+			if r.Chance(1, 4) {
+				tail = "end"
+			}
+			cs = append(cs, mkReuse(rf, sh, tail, nil, "exit", ins[r.Intn(len(ins))]))
+		}
+		for j := 0; j < 8; j++ {
+			sh := &shapes[r.Intn(len(shapes))]
+			ins := instantsFor(sh)
+			chs := chainsOfDepth(r.Range(1, 2))
+			cs = append(cs, mkReuse(rf, sh, "loop", chs[r.Intn(len(chs))], mon.Pick(r, []string{"exit", "loop"}), ins[r.Intn(len(ins))]))
+		}
+	}
 	// one processor: the watcher goroutine only runs when the evaluating goroutine is preempted or yields
 	n1 := d.N(60, 1500)
 	for j := 0; j < n1; j++ {
@@ -587,7 +809,7 @@ func plan(d *mon.Driver) []caseData {
 // driver
 
 func drive(d *mon.Driver, replay string) int {
-	d.Rule = "a case is the triple (shape incl. tail variant, spawn nesting = chain of spawn forms and what intermediate goroutines do, cancellation instant incl. cancel/deadline and GOMAXPROCS); it is non-trivial when the workload had made >= 1 tick() call or had called parked() before the context ended"
+	d.Rule = "a case is the triple (shape incl. tail variant and, where the VM is reused with one context, the reuse form; spawn nesting = chain of spawn forms and what intermediate goroutines do, cancellation instant incl. cancel/deadline and GOMAXPROCS); it is non-trivial when the workload had made >= 1 tick() call or had called parked() before the context ended"
 	d.Assume = []string{
 		"progress is observed through the host builtin tick(); script code that neither ticks nor returns is only visible through the return of risor.Eval",
 		"between cancellation and return tick() yields the processor (runtime.Gosched + a sleep of at most 2 ms), so that the bound of " + fmt.Sprint(tickBound) + " further ticks per goroutine counts script steps and not scheduler latency",
@@ -605,7 +827,8 @@ func drive(d *mon.Driver, replay string) int {
 			return drive(d, "")
 		}
 		if sh := shapeByName(c.Shape); sh != nil && c.Src == "" {
-			c.Src = render(sh, c.Tail, c.Chain, c.Mid)
+			rf := reuseByName(c.Reuse)
+			c.Src = render(sh, c.Tail, c.Chain, c.Mid, rf != nil && rf.Entry)
 		}
 		c.Repeat = 3
 		d.RunPool([]mon.Case{mon.NewCase("replay", "case", c)}, mon.PoolOpts{BatchSize: 1, BatchTimeout: 5 * time.Minute, NoRetry: true}, func(mc mon.Case, res mon.Result) {
@@ -668,6 +891,13 @@ func drive(d *mon.Driver, replay string) int {
 			return
 		}
 		o := &m.Runs[0]
+		if o.Early {
+			d.Event("deadline-passed-before-the-workload-started", 1)
+			return
+		}
+		if c.Reuse != "" {
+			d.Event("workload-is-a-later-invocation-on-a-reused-vm", 1)
+		}
 		if c.nontrivial(o) {
 			d.Distinct(c.key())
 			d.Event("nontrivial", 1)
